@@ -386,9 +386,8 @@ def reply_fallback_rule(ctx, w, node_action, paths):
         early = [p for p in elem if D.show(p.ret) != "NodeAction::Remove" and not any((is_flag(a) or is_reply(a)) and not t for a, t in p.conds)]
         ctx.check(not early, "C14.reply-fallback", "C14.reply-fallback:before-other-verdicts", w.where(node_action),
                   bad_msg=f"an element can be kept or unwrapped ({sorted({D.show(p.ret) for p in early})}) before the reply-fallback request is consulted")
-        extra = [p for p in hit if any((("depth" in D.show_atom(a)) or ("ignore_elements" in D.show_atom(a)) or ("allow_elements" in D.show_atom(a))) for a, t in p.conds)]
-        ctx.check(not extra, "C14.reply-fallback", "C14.reply-fallback:unconditional", w.where(node_action),
-                  bad_msg="the removal of `mx-reply` depends on the depth or on the ignore/allow lists: " + "; ".join(sorted({D.show_atom(a) for p in extra for a, t in p.conds if "depth" in D.show_atom(a) or "_elements" in D.show_atom(a)})[:3]))
+        # (that every such path ends in Remove also means the removal does not depend on the depth or on the ignore/allow lists: a path that
+        #  evaluates them eagerly and ORs the results is fine, a path on which they turn the verdict is caught by the check above)
     elif set_fields:
         fl = set_fields[0]
         in_set = lambda a: D.show_atom(a).startswith(f"HashSet::contains(self.{fl}")
